@@ -3,14 +3,17 @@
 The agent gets only the property text, nothing from /verif."""
 import json, sys
 pid = sys.argv[1]
+rnd = int(sys.argv[2]) if len(sys.argv) > 2 else 1      # round 1: m1, m2 in /tmp/mut-<id>; round n: m<2n-1>, m<2n> in /tmp/mut<n>-<id>
+M1, M2 = 2 * rnd - 1, 2 * rnd
+DIR = "/tmp/mut-" + pid if rnd == 1 else "/tmp/mut%d-%s" % (rnd, pid)
 for l in open('/verif/properties.jsonl'):
     p = json.loads(l)
     if p['id'] == pid:
         break
 print(f"""You are a software engineer working on the Go library github.com/ricochet1k/termemu (a headless terminal emulator: VT/xterm escape-sequence parser driving two screen-buffer implementations, grid and span, plus key and mouse encoders). Its source is the git repository /repo. You must NOT modify /repo itself and you must NOT read anything under /verif. Work only in your own scratch git worktree:
 
-    git -C /repo worktree add --detach /tmp/mut-{pid}/wt HEAD
-    cd /tmp/mut-{pid}/wt
+    git -C /repo worktree add --detach {DIR}/wt HEAD
+    cd {DIR}/wt
     export GOFLAGS=-mod=mod GOPROXY=off GOSUMDB=off GOTOOLCHAIN=local     # needed in every shell call; there is no network
 
 The existing test suite is run with:  go build ./... && go test -vet=off -count=1 ./...   (about 2 seconds).
@@ -24,8 +27,8 @@ It is meant to hold for: {p['quantifier']['text']}
 
 YOUR TASK: produce TWO different, independent, realistic code changes ("mutants") to the library, each of which BREAKS this property while the library STILL COMPILES and the EXISTING TEST SUITE STILL PASSES unedited. Think of the kind of regression a plausible refactoring, optimisation, off-by-one, wrong constant, dropped special case, reordered statements, or mis-merged patch would introduce. Each change should need something SPECIFIC to manifest — a particular multi-step sequence of operations, an unusual input or parameter value, a boundary size, a particular interleaving or read segmentation, a fault at a particular point, or two cooperating sites that each look fine alone — NOT something ordinary use would expose at once (a change that breaks typing 'hello' is useless). Keep each change small (a few lines), in non-test library code only (never touch *_test.go, verif_hooks.go, go.mod), and make the two mutants different in nature and location. Do not add new exported API. The change must violate the property as stated above, not merely change unspecified behaviour.
 
-For each mutant i in 1, 2 deliver a directory /tmp/mut-{pid}/out/m<i>/ containing:
+For each mutant i in {M1}, {M2} deliver a directory {DIR}/out/m<i>/ containing:
   - patch.diff : `git diff` of the worktree against HEAD for this mutant only (apply-able with `git apply` to a clean checkout of /repo HEAD)
   - demo_test.go : a Go test file (package termemu, so it can use unexported helpers such as MakeTerminalWithMock / testFeedTerminalInputFromBackend from test_helpers_test.go, or the public API) whose test FAILS with the change applied and PASSES on the unchanged code. The test must demonstrate the property violation in the property's own terms (observable behaviour: screen text, cursor, replies, callbacks, bytes written, panics, races...). Name the test TestMutant_{pid}_m<i>.
   - meta.json : {{"property": "{pid}", "mutant": "m<i>", "summary": "<one sentence: what was changed>", "needs": "<what specific input/sequence/size/interleaving it needs in order to manifest>", "violates": "<which clause of the property is violated and how>", "commands": ["<the commands you ran to confirm: suite passes with the change, demo fails with the change, demo passes without it>"]}}
-Confirm all three facts yourself for each mutant before delivering: (a) with the change, `go build ./... && go test -vet=off -count=1 ./...` passes (without your demo test file present); (b) with the change and the demo test file copied into the worktree root, `go test -vet=off -count=1 -run TestMutant_{pid}_m<i> .` FAILS; (c) on a clean checkout plus the demo test file it PASSES. Reset the worktree between the two mutants (`git checkout -- . && git clean -fd`). NEVER use `git stash` (the stash is shared between all worktrees of /repo and other engineers are working in theirs): to test without your change use `git diff > /tmp/mut-{pid}/p.diff; git apply -R /tmp/mut-{pid}/p.diff` and re-apply with `git apply`. When finished remove the worktree: `git -C /repo worktree remove --force /tmp/mut-{pid}/wt`. Your final message: a short description of both mutants.""")
+Confirm all three facts yourself for each mutant before delivering: (a) with the change, `go build ./... && go test -vet=off -count=1 ./...` passes (without your demo test file present); (b) with the change and the demo test file copied into the worktree root, `go test -vet=off -count=1 -run TestMutant_{pid}_m<i> .` FAILS; (c) on a clean checkout plus the demo test file it PASSES. Reset the worktree between the two mutants (`git checkout -- . && git clean -fd`). NEVER use `git stash` (the stash is shared between all worktrees of /repo and other engineers are working in theirs): to test without your change use `git diff > {DIR}/p.diff; git apply -R {DIR}/p.diff` and re-apply with `git apply`. When finished remove the worktree: `git -C /repo worktree remove --force {DIR}/wt`. Your final message: a short description of both mutants.""")
